@@ -36,6 +36,7 @@
   runtime_eq_spec_zones_partial
   inline_eq_spec_zones_partial
   spec_leaf_dyn_witness
+  inline_real_eq_runtime_illformed_partial
 -/
 import Genshi.Lemmas.InclErase
 import Genshi.Lemmas.InclSpec
@@ -697,6 +698,29 @@ theorem inline_real_eq_runtime_partial (T : List Name) (files : Files) (hH : inH
   · exact hm.1 f (by rw [inline_eq_runtime_partial T files hH]; exact h)
   · exact hm.1 f (by rw [inline_eq_runtime_partial T files hH]; exact h)
 
+/-
+  The marker-free statement for file sets with ill-formed templates.  Full statement (false, `eager_syntax_witness`):
+  the code's inline mode and run-time mode reach the same results.
+-/
+/-- the code as it is (no markers), file sets that may contain ill-formed templates (`inHW`): a result the inline
+mode reaches is the syntax error or a result run-time mode reaches; a result run-time mode reaches with fuel `f` is
+reached by the inline mode with the same `f`, unless the inline mode raises the syntax error -/
+theorem inline_real_eq_runtime_illformed_partial (T : List Name) (files : Files) (hH : inHW T files = true)
+    (entry : Name) (kind : Kind) (data : List (Name × Value)) (r : Res (List Ev)) (hr : r ≠ .fuel) :
+    ((∃ f, renderInlineReal files entry kind data f = r) → r = .err .syntaxErr ∨ ∃ f, renderRuntime files entry kind data f = r) ∧
+    (∀ f, renderRuntime files entry kind data f = r →
+      renderInlineReal files entry kind data f = r ∨ renderInlineReal files entry kind data f = .err .syntaxErr) := by
+  constructor
+  · rintro ⟨f, h⟩
+    obtain ⟨g, hg⟩ := (marker_free_same_results files entry kind data r hr).2 f h
+    rcases inline_eq_runtime_illformed_partial T files hH entry kind data g with h1 | h1
+    · left; rw [← hg, h1]
+    · right; exact ⟨g, by rw [← h1]; exact hg⟩
+  · intro f h
+    rcases inline_eq_runtime_illformed_partial T files hH entry kind data f with h1 | h1
+    · right; exact (marker_free_same_results files entry kind data _ (by simp)).1 f h1
+    · left; exact (marker_free_same_results files entry kind data r hr).1 f (by rw [h1]; exact h)
+
 /-! ## what an include means (run-time semantics; by `inline_eq_runtime_partial` the inline mode
 produces the same events for whole templates) -/
 
@@ -921,6 +945,11 @@ def exIllReqs : List Req :=
    (nB, .markup, []),                                                -- served from what the failed preparation left
    (nC, .markup, [(['s', '0'], .str [])])]
 
+/-- the witness of finding C11-eager-syntax is inside `inHW`: there `inline_real_eq_runtime_illformed_partial` speaks,
+and the syntax-error disjunct is the one that holds -/
+example : inHW (matchTags wEager) wEager = true ∧
+    renderInlineReal wEager nA .markup [(['s', '0'], .str [])] 5 = .err .syntaxErr ∧
+    renderInlineReal exIll nB .markup [] 5 = renderRuntime exIll nB .markup [] 5 := by decide +kernel
 /-- non-vacuity of `inline_eq_runtime_illformed_partial` / `inline_seq_illformed_partial`: outside `inH`, inside
 `inHW`; the first request raises the syntax error in inline mode only, when `c.html` is loaded by the
 expression-valued include and prepared: `b.html` was inlined into it — and stays prepared in the loader, beside
